@@ -215,10 +215,14 @@ class PassShape:
     def conds(self, node, expand=True):
         return facts.node_conditions(self.ctx.prog, self.f, node, self.ctx.typer, expand=expand)
 
-    def region(self, node) -> Dict[str, object]:
+    def region(self, node, extra_conds=None) -> Dict[str, object]:
         """classify the path condition of a statement: milestone True/False, leaf True/False, none_of = {field: bool}"""
         r = {'milestone': None, 'leaf': None, 'is_none': {}, 'other': []}
-        for t, pol in self.conds(node):
+        allc = list(self.conds(node))
+        for t, pol in (extra_conds or []):
+            tx = self.ex.expand(t, self.cfg.node_containing(t) or self.cfg.node_of(node) or self.cfg.node_containing(node))
+            allc += facts.split_conj(tx, pol)
+        for t, pol in allc:
             if match(f"{self.task}.milestone", t):
                 r['milestone'] = pol
                 continue
@@ -244,11 +248,19 @@ class PassShape:
         return r
 
     def stores(self, attr):
-        """[(stmt, target, value, region)] of stores to task.<attr> (property setters estimate/spent included)"""
+        """[(stmt, target, value, region)] of stores to task.<attr> (property setters estimate/spent included).
+        A conditional expression on the right-hand side is split into one entry per case, its tests joining the region."""
         out = []
         for st, tgt, val in facts.attr_stores(self.f):
             if tgt.attr == attr and isinstance(tgt.value, ast.Name) and tgt.value.id == self.task:
-                out.append((st, tgt, val, self.region(st)))
+                if isinstance(st, ast.AugAssign):
+                    out.append((st, tgt, val, self.region(st)))
+                    continue
+                for conds, v in expr_cases(val):
+                    # `x = <new> if x is None else x` keeps the old value in one case: not a store
+                    if isinstance(v, ast.Attribute) and same(v, tgt):
+                        continue
+                    out.append((st, tgt, v, self.region(st, conds)))
         return out
 
     # ---- recursive calls
@@ -330,7 +342,17 @@ class PassShape:
         var = iter_expr.id
         res['var'] = var
         defs = self.fl.reaching(var, at_node)
-        res['defs'] = defs
+        # follow plain aliases (`successors = collected`), e.g. left behind by helper inlining
+        for _ in range(4):
+            if len(defs) == 1 and defs[0].kind == 'assign' and isinstance(defs[0].value, ast.Name) and defs[0].node is not None:
+                nxt = self.fl.reaching(defs[0].value.id, defs[0].node)
+                if nxt:
+                    var = defs[0].value.id
+                    defs = nxt
+                    continue
+            break
+        res['alias_of'] = var
+        res['defs'] = list(defs)
         for d in defs:
             if d.kind == 'assign' and d.value is not None:
                 classify_seq(d.value, {})
@@ -400,3 +422,30 @@ def memo_is_local(ctx, o, S):
             o.site(calc, c, "memo allocated by this calc call")
         else:
             o.refute(calc, c, c, f"the memo handed to the pass is `{src(a) if a is not None else '?'}`, not a container allocated by this call")
+
+
+def expr_cases(e: ast.AST, depth: int = 0):
+    """[(conditions, value)] - a (nested) conditional expression split into its cases"""
+    if isinstance(e, ast.IfExp) and depth < 4:
+        out = []
+        for c, v in expr_cases(e.body, depth + 1):
+            out.append(([(e.test, True)] + c, v))
+        for c, v in expr_cases(e.orelse, depth + 1):
+            out.append(([(e.test, False)] + c, v))
+        return out
+    return [([], e)]
+
+
+def is_emptiness(test: ast.AST, pol: bool):
+    """(sequence expression, True if the condition says EMPTY) for `len(x) == 0`, `not x`, `x`, `len(x) > 0`, `len(x)` ..."""
+    while isinstance(test, ast.UnaryOp) and isinstance(test.op, ast.Not):
+        test, pol = test.operand, not pol
+    m = match("len($x) == 0", test) or match("0 == len($x)", test) or match("len($x) < 1", test)
+    if m:
+        return m['x'], pol
+    m = match("len($x) > 0", test) or match("len($x) != 0", test) or match("len($x) >= 1", test) or match("len($x)", test) or match("0 < len($x)", test)
+    if m:
+        return m['x'], not pol
+    if isinstance(test, (ast.Name, ast.ListComp, ast.List)):
+        return test, not pol
+    return None
